@@ -21,6 +21,8 @@ pub enum AttrVal {
     /// attribute present without a value
     Bare,
     Val(String),
+    /// written without quotes (`to=2024-03-01`): the tag grammar records no value for it
+    Unquoted(String),
 }
 
 #[derive(Clone, Debug, Serialize, Deserialize, PartialEq)]
@@ -106,6 +108,9 @@ pub const DELIMS: &[(&str, &str)] = &[
     ("{{!", "}}"),
     ("《", "》"),
     ("/*‹", "›*/"),
+    // plain comment delimiters: ordinary comments in the text then are (stray, inert) tags
+    ("<!--", "-->"),
+    ("/*", "*/"),
 ];
 
 pub const TL_TAGS: &[&str] = &["time-limited", "tl", "expires", "期限", "TimeLimited", "EXPIRES"];
@@ -172,6 +177,7 @@ impl Elem {
         let mut v = Vec::new();
         let attr = |n: &str, a: &AttrVal| match a {
             AttrVal::Bare => n.to_string(),
+            AttrVal::Unquoted(s) => format!("{}={}", n, s),
             AttrVal::Val(s) => format!("{}={}{}{}", n, q, s, q),
         };
         if let Some(a) = &self.to {
